@@ -150,7 +150,7 @@ func (r *run) compareCBs() {
 	for i := r.checked; i < n; i++ {
 		a, e := log[i], r.expect[i]
 		if a.who != e.who {
-			r.viol(tagFor(e.who, e.errKind, a.err), "callback #%d: %s was called, the model expects %s (old=%s new=%s)", i, a.who, e.who, r.what(e.old), r.what(e.new))
+			r.viol(tagFor(e.who, e.errKind, a.err)+unverifiedTag(a), "callback #%d: %s was called, the model expects %s (old=%s new=%s)", i, a.who, e.who, r.what(e.old), r.what(e.new))
 			return
 		}
 		if a.old != r.ptrOf(e.old) || a.new != r.ptrOf(e.new) {
@@ -187,7 +187,7 @@ func (r *run) compareCBs() {
 	r.checked = n
 	if len(log) > len(r.expect) {
 		a := log[len(r.expect)]
-		r.viol(tagFor(a.who, "", a.err), "unexpected callback #%d: %s(old=%s, new=%s, err=%v); the model expects no further call at this point", len(r.expect), a.who, r.whatPtr(a.old), r.whatPtr(a.new), a.err)
+		r.viol(tagFor(a.who, "", a.err)+unverifiedTag(a), "unexpected callback #%d: %s(old=%s, new=%s, err=%v); the model expects no further call at this point", len(r.expect), a.who, r.whatPtr(a.old), r.whatPtr(a.new), a.err)
 		return
 	}
 	if len(log) < len(r.expect) {
@@ -196,6 +196,15 @@ func (r *run) compareCBs() {
 		return
 	}
 	r.res.Calls = len(log)
+}
+
+// unverifiedTag adds C04 when a new-config callback that the model does not
+// expect was handed a config that cannot have passed Verify.
+func unverifiedTag(a cbRec) string {
+	if a.who != "onerr" && a.new != nil && a.new.Limit < 0 {
+		return ",C04"
+	}
+	return ""
 }
 
 func (r *run) isRejected(p *SimCfg) bool {
@@ -756,7 +765,18 @@ func (r *run) stepReportErr(op *Op) {
 	}
 	loops0 := r.snapshotLoops()
 	var err error
-	if pan := r.safely(func() { err = r.ws[op.Src].Args.ReportError(r.liveCtx, errSource) }); pan != "" {
+	// the error a watcher reports is its own business: plain, or wrapping a
+	// context error of one of ITS requests (a poller with a per-request
+	// deadline); it never says anything about the watcher being finished
+	r.errReports++
+	repErr := errSource
+	switch r.errReports % 3 {
+	case 1:
+		repErr = fmt.Errorf("poll failed: %w: %w", errSource, context.DeadlineExceeded)
+	case 2:
+		repErr = fmt.Errorf("request aborted: %w: %w", errSource, context.Canceled)
+	}
+	if pan := r.safely(func() { err = r.ws[op.Src].Args.ReportError(r.liveCtx, repErr) }); pan != "" {
 		r.viol("C08", "ReportError panicked: %s", pan)
 		return
 	}
@@ -1068,12 +1088,19 @@ func (r *run) stepEnable() {
 			// C04 too: verification is now "active" while the visible config never passed Verify
 			etag = "C09,C04"
 		}
-		r.viol(etag, "EnableVerification must verify exactly the installed config once; Verify was called %d times (first on %s)", len(newV), func() string {
-			if len(newV) > 0 {
-				return r.whatPtr(newV[0].ptr)
-			}
-			return "-"
-		}())
+		first := "-"
+		if len(newV) > 0 {
+			first = r.whatPtr(newV[0].ptr)
+		}
+		const enFmt = "EnableVerification must verify exactly the installed config once; Verify was called %d times (first on %s)"
+		if len(newV) == 0 && err == nil && cfg == cur.ptr && r.deferViol(etag, enFmt, len(newV), first) {
+			// the call claims success without having verified anything: for the
+			// other properties' clauses go on with verification switched on, as claimed
+			r.skipVerify = false
+			r.label("enable:claimed-success-unverified")
+			return
+		}
+		r.viol(etag, enFmt, len(newV), first)
 		return
 	}
 	if cur.val.Limit < 0 {
